@@ -687,6 +687,21 @@ def law_copy(ctx, rng, tree, m, n, tol):
             ctx.fail("copy_preserves", "TreeNode.copy() kept parent/distance/root flag")
         if m_canon(extract(ctx, x.ref, "subtree"), True) != m_canon(extract(ctx, nc, "TreeNode.copy"), True):
             ctx.fail("copy_preserves", "TreeNode.copy() changed the subtree")
+    # the copy of the root node is an ordinary free node as well ("the parent node and the distance to it is not
+    # included"): it can become the child of a new node, e.g. to put an outgroup above the old root
+    ctx.op("TreeNode.copy(root)")
+    rc = tree.root.copy()
+    if rc.parent is not None or rc.distance is not None:
+        ctx.fail("copy_preserves", "copy of the root node has a parent / a distance")
+    try:
+        top = TreeNode([rc, TreeNode(index=n)], [1.5, 2.5])
+        bigger = Tree(top)
+    except Exception as e:
+        ctx.fail("copy_preserves", "the copy of a root node cannot be used as child of a new node: %s: %s" % (type(e).__name__, e))
+    if len(bigger.leaves) != n + 1 or rc.parent is not top or rc.distance != 1.5:
+        ctx.fail("copy_preserves", "tree built above a copied root has %d leaves (expected %d)" % (len(bigger.leaves), n + 1))
+    if not (tree == c):
+        ctx.fail("copy_independent", "building a tree above a copy of the root changed the original tree")
 
 
 def law_binary(ctx, rng, tree, m, n, tol):
